@@ -80,9 +80,9 @@ def _replay_cm(b):
     return bad, drift
 
 
-def _rmspe_def(a, bpts, match):
+def _rmspe_def(a, bpts, match, eps=None):
     """sqrt(mean(((p - b) / (p + eps))^2)) over both coordinates, exactly over Fractions, sqrt last."""
-    eps = Fr(EPS)
+    eps = Fr(EPS) if eps is None else Fr(eps)
     tot = Fr(0)
     for p, m in zip(a, match):
         q = bpts[m]
@@ -146,6 +146,17 @@ def _replay_err(b):
         for name, v in got2.items():
             if not _close(v, want2[name]):
                 bad.append(("error-definition(%s,%s)" % (name, s), {"got": v, "specified": want2[name], "y_translated_by": dy}))
+    # the optional eps of rmspe at a non-default, exactly representable value
+    for s in STRATS:
+        st = b["strat"][s]
+        a, bp = (kp, ep) if st["side"] == "knees" else (ep, kp)
+        try:
+            g = float(ev.rmspe(P, K, E, ev.Strategy[s], 0.25))
+            w = _rmspe_def(a, bp, st["match"], 0.25)
+            if not _close(g, w):
+                bad.append(("error-definition(rmspe,%s)" % s, {"got": g, "specified": w, "eps": 0.25}))
+        except Exception as ex:
+            bad.append(("returns", {"fn": "rmspe", "strategy": s, "eps": 0.25, "raised": repr(ex)[:200]}))
     # the same identity through the DEFAULT strategy (whatever it is): a call without the optional argument is a valid call
     try:
         r0, m0 = float(ev.rmse(P, K, E)), float(ev.mse(P, K, E))
